@@ -26,8 +26,12 @@ Fixpoint civils_ok (z : zone) (prev_off : Z) (l : list transition) : bool :=
       && civils_ok z (off_of z (tr_type tr)) r
   end.
 
+(* 93599 = 25:59:59, the widest utc offset an accepted file can carry: the type
+   table is bounded by a day, a POSIX-footer std offset by 24:59:59 and its
+   default dst offset is one hour more (LoadCert.v proves the loader
+   establishes this bound and shows it is attained beyond a day) *)
 Definition type_ok (z : zone) (ty : ttype) : bool :=
-  (-86400 <=? tt_off ty) && (tt_off ty <=? 86400)
+  (-93599 <=? tt_off ty) && (tt_off ty <=? 93599)
   && fields_eqb (tt_cmax ty) (civil_of_seconds (max64 + tt_off ty))
   && fields_eqb (tt_cmin ty) (civil_of_seconds (min64 + tt_off ty))
   && (0 <=? tt_abbr ty) && (tt_abbr ty <=? Z.of_nat (length (z_abbrs z))).
